@@ -354,7 +354,12 @@ StepFn(m) == IF m.cors[m.cur].mode = "eval" THEN StepEval(m) ELSE StepRet(m)
 \* that contain it are not made
 UnkText == <<"<unspecified text>">>
 HasUnk(as) == \E k \in 1..Len(as) : as[k] = UnkText
-Rendered(v) == LET r == Render(v) IN IF IsErr(r) THEN UnkText ELSE Abbrev(r.val)
+\* (the report cuts a rendering at 20 of the implementation's units -- bytes --; for text with characters outside ASCII that may be cut,
+\* the place of the cut is not documented)
+Rendered(v) == LET r == Render(v) IN
+               IF IsErr(r) THEN UnkText
+               ELSE IF Len(r.val) > 5 /\ \E i \in 1..Len(r.val) : r.val[i] \notin AsciiChars THEN UnkText
+               ELSE Abbrev(r.val)
 CallsOf(m, c) ==
   LET idx == {i \in 1..Len(c.k) : c.k[i].t = "fnb"}
       RECURSIVE Down(_)
@@ -436,7 +441,7 @@ ReportOK(s, r) ==
   /\ \A i \in 1..Len(s.ctxs) : FramesOK(s.ctxs[i], r.ctxs[i])
 
 Aspect(o, r) ==     \* "" when the recorded observation r is the specified one, else the first differing aspect
-  IF "perr" \in DOMAIN o THEN (IF r.kind = "perr" THEN "" ELSE "kind")
+  IF "perr" \in DOMAIN o THEN (IF r.kind = (IF o.perr = "refused" THEN "cerr" ELSE "perr") THEN "" ELSE "kind")     \* a statement without effect: rejected by the parser, or refused by the compiler as too large
   ELSE IF CmpHas("nocrash") THEN (IF r.kind \in {"val", "err"} THEN "" ELSE "kind")
   ELSE IF "err" \in DOMAIN o THEN
        IF r.kind # "err" THEN "kind"
@@ -470,7 +475,7 @@ BeginItem ==
   /\ itemstart' = stepno
   /\ peakk' = 0
   /\ IF "perr" \in DOMAIN Items[si]
-     THEN /\ Observe([perr |-> TRUE], "stmtend", si + 1)
+     THEN /\ Observe([perr |-> IF "cerr" \in DOMAIN Items[si] THEN "refused" ELSE "parse"], "stmtend", si + 1)
           /\ UNCHANGED <<pi, cors, cur, heap, globals, out, stdin>>
      ELSE /\ cors' = StartCors(si) /\ cur' = 1 /\ out' = <<>>
           /\ status' = "run"
